@@ -124,12 +124,22 @@ def run(ctx):
             n_restrict += 1
             if got != want:
                 ctx.violation(key + ":l_list=%s" % sub, {"got": got, "expected": want})
+            # the restriction holds for every later use of the same object: repeated call, l list,
+            # number of coupling rows of the CG matrix (= number of fit parameters created)
+            again = sorted((int(l), (int(s) if float(s).is_integer() else float(s))) for l, s in d2.get_ls_list())
+            rows = np.asarray(d2.get_cg_matrix(), dtype=float).shape[0]
+            ls_of = sorted(int(l) for l in d2.get_l_list())
+            if again != want or rows != len(want) or ls_of != sorted(l for l, _ in want):
+                ctx.violation(key + ":l_list=%s:later_use" % sub, {"second_call": again, "cg_rows": rows, "l_list": ls_of, "expected": want})
         sub = exp[:: max(1, len(exp) // 2)]
         d3 = mk(ls_list=[list(x) for x in sub])
         got = sorted((int(l), (int(s) if float(s).is_integer() else float(s))) for l, s in d3.get_ls_list())
         n_restrict += 1
         if got != sorted(sub):
             ctx.violation(key + ":ls_list", {"got": got, "expected": sorted(sub)})
+        again = sorted((int(l), (int(s) if float(s).is_integer() else float(s))) for l, s in d3.get_ls_list())
+        if again != sorted(sub) or np.asarray(d3.get_cg_matrix(), dtype=float).shape[0] != len(sub):
+            ctx.violation(key + ":ls_list:later_use", {"second_call": again, "expected": sorted(sub)})
     ctx.part("rank", decays=n_rank, restrictions=n_restrict, rank_max_2j=rank_max)
     ctx.cov["traces_validated_against_impl"] = len(table)
     ctx.cov["rule"] = (
